@@ -114,7 +114,13 @@ func parseCommaRules(input string) ([]rule, error) {
 	aare := false
 	canHaveInlineComment := false
 	size := len(input)
+	escaped := false
 	for idx, r := range input {
+		if escaped || (r == '\\' && !comment) {
+			// The character after a backslash is an ordinary one
+			escaped = !escaped
+			continue
+		}
 		if quoted && r != '"' && r != '\n' {
 			// Inside a quoted value nothing is a separator, a block or a comment
 			continue
@@ -225,8 +231,18 @@ func tokenizeRule(str string) []string {
 	if inHeader && len(str) > 2 && str[0:2] == VARIABLE.Tok() {
 		isVariable = true
 	}
+	escaped := false
 	for _, r := range str {
 		switch {
+		case escaped:
+			// The character after a backslash is an ordinary one
+			escaped = false
+			currentToken.WriteRune(r)
+
+		case r == '\\':
+			escaped = true
+			currentToken.WriteRune(r)
+
 		case (r == ' ' || r == '\t') && len(blockStack) == 0 && !quoted:
 			// Split on space/tab if not in a block or quoted
 			if currentToken.Len() != 0 {
